@@ -111,7 +111,7 @@ class Printer:
             r = "(-%s)" % self.p(e.args[0])
         elif op == "pow":
             n = e.args[1]
-            r = "(%s ^ (%d : ℕ))" % (self.p(e.args[0]), n) if n >= 0 else "((%s ^ (%d : ℕ))⁻¹)" % (self.p(e.args[0]), -n)
+            r = "(%s ^ (%d : Nat))" % (self.p(e.args[0]), n) if n >= 0 else "((%s ^ (%d : Nat))⁻¹)" % (self.p(e.args[0]), -n)
         elif op == "rpow":
             fr = e.args[1]
             r = "(e.rpowF %s (%d) %d)" % (self.p(e.args[0]), fr.numerator, fr.denominator)
@@ -325,9 +325,143 @@ def group_of(name):
     return "Keys"
 
 
+QHEADER = """-- GENERATED by tools/py2lean/emit_core.py — the SAME definition bodies as Gen/%s.lean,
+-- specialised to core `Rat` (no Mathlib) so that they can be executed: printer validation. Do not edit.
+%s
+set_option linter.unusedVariables false
+set_option maxRecDepth 100000
+namespace AurelVerif.Gen.CoreQ
+open AurelVerif.Tensor
+%s
+"""
+
+
+def q_rendering(fn, text):
+    """Gen/Q<fn>: identical definition bodies, `[Field K]` binder dropped, K := Rat."""
+    body = text.split("namespace AurelVerif.Gen.Core\nopen AurelVerif.Tensor\n", 1)[1]
+    body = body.rsplit("end AurelVerif.Gen.Core", 1)[0]
+    body = body.replace("\nvariable {K : Type}\n", "\n")
+    if fn == "Env.lean":
+        body = body.split("/-- the environment with every entry 0", 1)[0]
+        imports = "import AurelVerif.Model.TensorDefs"
+    else:
+        imports = "import AurelVerif.Gen.QEnv"
+    n_defs = body.count("{K : Type} [Field K] ")
+    body = body.replace("{K : Type} [Field K] ", "").replace("@[core_unfold] ", "")
+    return QHEADER % (fn[:-5], imports, "abbrev K := Rat" if fn == "Env.lean" else "") + body + "\nend AurelVerif.Gen.CoreQ\n", n_defs
+
+
+def q_env(shapes):
+    """Executable stand-in for `Env`: one array field plus accessor functions with the
+    field names (a Lean 4.33 runtime limit crashes on constructors with > 126 fields),
+    so `e.gammaup3 i j` in the definition bodies resolves unchanged."""
+    lay, n = env_layout(shapes)
+    out = [QHEADER % ("Env", "import AurelVerif.Model.TensorDefs", "abbrev K := Rat"),
+           "structure Env (K : Type) where", "  arr : Array Rat", ""]
+    for nm, (off, shp) in lay.items():
+        ty = " → ".join(["Fin %d" % k for k in shp] + ["Rat"])
+        out.append("def Env.%s (e : Env K) : %s := %s" % (nm, ty, _acc(off, shp, "e.arr")))
+    out += ["def Env.D (e : Env K) (i : Fin 3) (x : Rat) : Rat := ((i.val : Nat) : Rat) * x + 2 * x",
+            "def Env.sqrtF (e : Env K) (x : Rat) : Rat := x * x + 1",
+            "def Env.logF (e : Env K) (x : Rat) : Rat := x + 3",
+            "def Env.expF (e : Env K) (x : Rat) : Rat := 2 * x - 1",
+            "def Env.absF (e : Env K) (x : Rat) : Rat := x * x",
+            "def Env.rpowF (e : Env K) (x : Rat) (n : Int) (d : Nat) : Rat := x * ((n : Rat) / (d : Rat)) + 1",
+            "", "end AurelVerif.Gen.CoreQ", ""]
+    return "\n".join(out)
+
+
+ARG_ORDER = ["f", "dtf", "a", "b", "weight", "Rssss", "Rssst", "Rstst"] + ["c%d" % i for i in range(10)]
+ARG_STRIDE = 256
+
+
+def env_layout(shapes):
+    """flat input layout of an Env: name -> (offset, shape)."""
+    lay, off = {}, 0
+    for nm in SCALARS:
+        lay[nm] = (off, ())
+        off += 1
+    for k in sorted(shapes):
+        shp = shapes[k]
+        for nm, s_ in ([("%s_%d" % (k, i), s_) for i, s_ in enumerate(shp)] if isinstance(shp, list) else [(k, shp)]):
+            lay[nm] = (off, tuple(s_))
+            off += int(np.prod(s_)) if s_ else 1
+    return lay, off
+
+
+def _acc(off, shape, arr="a"):
+    if not shape:
+        return "%s[%d]!" % (arr, off)
+    names = ["i%d" % k for k in range(len(shape))]
+    idx, stride = [], 1
+    for k in reversed(range(len(shape))):
+        idx.append("%s.val * %d" % (names[k], stride))
+        stride *= shape[k]
+    return "fun %s => %s[%d + %s]!" % (" ".join(names), arr, off, " + ".join(reversed(idx)))
+
+
+def generate_eval(index, shapes, gen_modules):
+    """Gen/CoreEval.lean: evaluates every emitted definition over ℚ on a flat
+    input array (printer validation; D and the opaque functions are fixed
+    stand-ins that the Python side mirrors)."""
+    lay, n = env_layout(shapes)
+    out = ["-- GENERATED by tools/py2lean/emit_core.py — evaluation harness for printer validation. Do not edit."]
+    out += ["import AurelVerif.Gen.Q%s" % m for m in gen_modules]
+    out += ["set_option maxRecDepth 100000", "set_option linter.unusedVariables false", "namespace AurelVerif.Gen.CoreEval",
+            "open AurelVerif.Gen.CoreQ AurelVerif.Tensor", "local notation \"ℚ\" => Rat", "",
+            "def mkEnv (a : Array ℚ) : Env ℚ := { arr := a }", ""]
+    evs = []
+    for k, i in enumerate(x for x in index if x["status"] == "ok"):
+        argsh = helper_arg_shapes(i["key"])
+        args = ""
+        for an, shp in argsh.items():
+            args += " (%s)" % _acc(ARG_ORDER.index(an) * ARG_STRIDE, tuple(shp), "g")
+        comps = []
+        for idx in np.ndindex(*i["shape"]) if i["shape"] else [()]:
+            comps.append("%s e%s %s" % (i["name"], args, " ".join(fin_lit(kk, n_) for kk, n_ in zip(idx, i["shape"]))))
+        # chunks of 64 components keep each definition cheap to elaborate
+        parts = []
+        for c0 in range(0, len(comps), 64):
+            nm = "ev%d_%d" % (k, c0 // 64)
+            out.append("def %s (e : Env ℚ) (g : Array ℚ) : List ℚ := [%s]" % (nm, ", ".join(comps[c0:c0 + 64])))
+            parts.append("%s e g" % nm)
+        evs.append('("%s", %s)' % (i["name"], " ++ ".join(parts)))
+    out.append("")
+    out.append("def evalAll (a g : Array ℚ) : List (String × List ℚ) :=")
+    out.append("  let e := mkEnv a")
+    for c0 in range(0, len(evs), 40):
+        out.append("  let l%d : List (String × List ℚ) := [%s]" % (c0 // 40, ", ".join(evs[c0:c0 + 40])))
+    out.append("  " + " ++ ".join("l%d" % (c0 // 40) for c0 in range(0, len(evs), 40)))
+    out += ["", "def parseRat (s : String) : ℚ :=",
+            "  match s.splitOn \"/\" with",
+            "  | [n, d] => (n.toInt?.getD 0 : ℚ) / (d.toInt?.getD 1 : ℚ)",
+            "  | [n] => (n.toInt?.getD 0 : ℚ)",
+            "  | _ => 0", "",
+            "def showRat (q : ℚ) : String := s!\"{q.num}/{q.den}\"", "",
+            "end AurelVerif.Gen.CoreEval", "", "open AurelVerif.Gen.CoreEval in",
+            "def main : IO Unit := do",
+            "  let h ← IO.getStdin",
+            "  let l1 ← h.getLine",
+            "  let l2 ← h.getLine",
+            "  let a := ((l1.trimAscii.toString.splitOn \" \").map parseRat).toArray",
+            "  let g := ((l2.trimAscii.toString.splitOn \" \").map parseRat).toArray",
+            "  for (nm, vs) in evalAll a g do",
+            "    IO.println (nm ++ \" \" ++ \" \".intercalate (vs.map showRat))",
+            "  IO.println \"END\"",
+            "  (← IO.getStdout).flush"]
+    return "\n".join(out) + "\n"
+
+
 def regen():
     results, failures, shapes = coretrace.trace_all()
     files, index = generate(results, shapes)
+    mods = sorted(fn[:-5] for fn in files if fn != "Env.lean")
+    for fn in list(files):
+        if fn == "Env.lean":
+            files["QEnv.lean"] = q_env(shapes)
+        else:
+            files["Q" + fn], _n = q_rendering(fn, files[fn])
+    files["CoreEval.lean"] = generate_eval(index, shapes, mods)
     gen_dir = os.path.join(fw.LEAN, "AurelVerif", "Gen")
     changed = []
     for fn, text in files.items():
